@@ -336,6 +336,12 @@ fn run_one<'tree>(case: &mut J, src: &'tree Src, graph: &mut tree_sitter_graph::
             }
         }
     }
+    // "globals_shadowed": name -> value bound in the PARENT set although the nested set binds the name too (the nested binding wins)
+    if let Some(m) = case["globals_shadowed"].as_object() {
+        for (k, v) in m {
+            outer_json.insert(k.clone(), v.clone());
+        }
+    }
     let outer = match exec::globals_from_json(&J::Object(outer_json), graph) {
         Ok(g) => g,
         Err(e) => {
